@@ -98,6 +98,20 @@ where
     let name = tname::<R, O>();
     let case = || format!("{} buffer {:02x?} index {} value {:#x}", name, bg, i, v);
     let raw = R::from_u32(v);
+    // a raw value only has BITS_PER_PIXEL bits, however it was constructed: from_u32 with upper bits
+    // set (documented: "only the least significant bits are used") is the same value, stores the
+    // same bits and loads back equal to itself
+    if bpp < 32 {
+        let mask = (1u32 << bpp) - 1;
+        for high in [!mask, 1u32 << bpp] {
+            let noisy = R::from_u32((v & mask) | high);
+            let inner: u32 = noisy.into_inner().into();
+            if noisy != R::from_u32(v & mask) || inner > mask {
+                ctx.violation(format!("{}|from_u32-keeps-bits-beyond-the-pixel", name), case, || format!("from_u32({:#x}) = {:?} (inner {:#x}), from_u32({:#x}) = {:?}", (v & mask) | high, noisy, inner, v & mask, R::from_u32(v & mask)));
+                return;
+            }
+        }
+    }
     let v: u32 = raw.into_inner().into();
     let mut buf = bg.to_vec();
     let mut want = bg.to_vec();
